@@ -426,15 +426,15 @@ theorem simplified_fields (A : Arith) (s1 s2 so : FVal) (sh : Nat) (r : Simplifi
           injection h2
 
 /-- `advanced_elementwise_add_sub_scale` always rescales the operand with the smaller scale:
-    `OPa` is chosen exactly when `input1_scale < input2_scale`, in which case the scale fed to the
-    operand rescale is `input1_scale` and the reference scale is `input2_scale`; otherwise `OPb`,
-    where `input2_scale` is the smaller one or the two are equal (neither is less). -/
+    `OPa` is chosen exactly when `input1_scale < input2_scale` (as Python evaluates it), in which
+    case the scale fed to the operand rescale is `input1_scale` and the reference scale is
+    `input2_scale`; otherwise `OPb`, where `input2_scale` is the smaller one or neither is less. -/
 theorem advanced_scales_smaller (A : Arith) (s1 s2 so : FVal) (bd : Int) (r : AdvancedResult)
     (h : advancedAddSub A s1 s2 so bd = .ok r) :
-    (r.opToScale = .opa ↔ Dbl.lt s1.val s2.val = true) ∧
-    (r.opToScale = .opa → pyMin s1 s2 = s1 ∧ pyMax s1 s2 = s2) ∧
-    (r.opToScale = .opb → (pyMin s1 s2 = s2 ∧ pyMax s1 s2 = s1) ∨
-        (Dbl.lt s1.val s2.val = false ∧ Dbl.lt s2.val s1.val = false ∧ pyMin s1 s2 = s1 ∧ pyMax s1 s2 = s1)) := by
+    (r.opToScale = .opa ↔ cmpLt A s1 s2 = true) ∧
+    (r.opToScale = .opa → pyMin A s1 s2 = s1 ∧ pyMax A s1 s2 = s2) ∧
+    (r.opToScale = .opb → (pyMin A s1 s2 = s2 ∧ pyMax A s1 s2 = s1) ∨
+        (cmpLt A s1 s2 = false ∧ cmpLt A s2 s1 = false ∧ pyMin A s1 s2 = s1 ∧ pyMax A s1 s2 = s1)) := by
   unfold advancedAddSub at h
   simp only [] at h
   split at h
@@ -444,14 +444,31 @@ theorem advanced_scales_smaller (A : Arith) (s1 s2 so : FVal) (bd : Int) (r : Ad
     · injection h with h
       subst h
       simp only []
-      by_cases hlt : Dbl.lt s1.val s2.val = true
-      · have hnot : Dbl.lt s2.val s1.val = false := Dbl.lt_asymm _ _ hlt
+      by_cases hlt : cmpLt A s1 s2 = true
+      · have hnot : cmpLt A s2 s1 = false := by
+          unfold cmpLt at hlt ⊢
+          simp only [] at hlt ⊢
+          rw [promote_comm s2.kind s1.kind]
+          exact Dbl.lt_asymm _ _ hlt
         simp [hlt, hnot, pyMin, pyMax]
-      · have hf : Dbl.lt s1.val s2.val = false := by simpa using hlt
-        by_cases h21 : Dbl.lt s2.val s1.val = true
+      · have hf : cmpLt A s1 s2 = false := by simpa using hlt
+        by_cases h21 : cmpLt A s2 s1 = true
         · simp [hf, h21, pyMin, pyMax]
-        · have hf2 : Dbl.lt s2.val s1.val = false := by simpa using h21
+        · have hf2 : cmpLt A s2 s1 = false := by simpa using h21
           simp [hf, hf2, pyMin, pyMax]
+
+/-- With scalars of one kind (all `np.float32` as read from a model, or all Python floats as passed
+    through the API) and an oracle whose `cast` to the own kind is the identity, "less" is the exact
+    order of the real values. -/
+theorem advanced_scales_smaller_exact (A : Arith) (s1 s2 so : FVal) (bd : Int) (r : AdvancedResult)
+    (h : advancedAddSub A s1 s2 so bd = .ok r) (hk : s1.kind = s2.kind)
+    (hc1 : A.cast s1.kind s1.val = s1.val) (hc2 : A.cast s2.kind s2.val = s2.val) :
+    (r.opToScale = .opa ↔ Dbl.lt s1.val s2.val = true) := by
+  have := (advanced_scales_smaller A s1 s2 so bd r h).1
+  rw [this]
+  unfold cmpLt
+  simp only []
+  rw [hk, promote_self, hc2, ← hk, hc1]
 
 /-- Both pairs of the advanced variant fit the register fields. -/
 theorem advanced_fields (A : Arith) (s1 s2 so : FVal) (bd : Int) (r : AdvancedResult)
